@@ -7,6 +7,42 @@ GO = "GOFLAGS=-mod=vendor GOPROXY=off GOSUMDB=off GOTOOLCHAIN=local"
 TECH = "contract-based deductive verification: WP-style VCs generated from naive-form go/ssa of /repo against //@ contracts, discharged by z3 5.1 / cvc5 / z3 4.8"
 
 CLAIMED = {
+ "C02": dict(
+   text="No-panic half: every function of the module (mpb, decor, cwriter, internal; 1900+ named obligations) is swept for nil dereference, index/slice bounds, integer division by zero, failed type assertion, negative make, nil-map write, send on / close of a closed channel and double close, each discharged for all inputs satisfying the callee-side preconditions that are themselves proved at every call site and go statement. Late-call half: the public getters/mutators/Add/Write are proved to return the documented late values (ErrDone, (0, ErrDone), final getter values, no effect) on the arm taken when the owner goroutine is gone. The no-hang half is a liveness property and is not decided (see C01).",
+   note="sequential per-function proof; goroutines are composed through channel-role invariants (proved at every send, assumed at every receive) and the go-site stability rule; external packages under assumed contracts (ext.go); integers exact with 64-bit ranges; hang-freedom not covered", ref="4 C02"),
+ "C03": dict(
+   text="Per-function postconditions that the final frame is built from final states: bState.draw sends exactly one frame per request and that frame is marked terminal iff the bar is completed or aborted; flush cancels a bar exactly when its frame says shutdown, removes (never re-pushes) a bar set to be removed; serve renders at least once more after the loop ends when auto-refreshing; the heap manager answers the state request. Proved for every pre-state; that the rendered bytes show current==total uses C07/C20's decorator contracts.",
+   note="whole-history composition (the last render happens after every bar's last update) rests on A-ACT and the channel invariants, which are assumed at receives; 'no byte after Wait' is covered by the serve contract's closing clause only", ref="4 C03"),
+ "C04": dict(
+   text="Frame geometry as postconditions: flush never collects more rows than the height it is given (clip, rowsfit), writes each collected row whole and in order, and calls Writer.Flush once with the number of rows that stay (rows - popped); render hands flush a height strictly below the terminal height on a terminal (fits) and the width as height otherwise; cwriter.Flush emits cursor-up by exactly the previous line count followed by erase-down and then the buffer (cwriter contract). Proved for all inputs; one defect found by the fits obligation and repaired (a frame as tall as the terminal scrolled).",
+   note="the terminal's interpretation of CUU/ED is the assumed meaning of the two escape sequences; a row is one terminal line because C07 bounds its width; delayed start writes to io.Discard (delay invariant)", ref="4 C04"),
+ "C05": dict(
+   text="Conservation through the heap manager and flush, as per-iteration postconditions of the real loops: a push adds exactly one bar to the heap; an iteration request sends every heap member once, in heap order, and closes the stream; popping delivers each bar once and removes it; flush pushes back exactly one entry per received bar on the normal/kept arms, pushes the successor instead of a finished predecessor, pushes nothing for removed/popped bars, and performs the collected pushes in FIFO order after the receive loop; Add pushes the new bar exactly once unless it is parked behind a live predecessor; end closes the manager. One defect (push could drop a bar) found and repaired earlier.",
+   note="heap membership is the ghost inheap/hord model of container/heap (assumed contract, ext.go heapModel); across goroutines the request/answer pairing is the channel-role invariant", ref="4 C05"),
+ "C06": dict(
+   text="Priority order as postconditions: popping the heap yields bars in non-decreasing priority given the heap was ordered (order), heap.Fix is called for a bar still in the heap and skipped otherwise (fixed/unfixed), flush leaves priorities alone except that a successor takes its predecessor's priority and a popped bar gets the running pop priority, and Add numbers bars by creation order. priorityQueue.Less/Swap/Push/Pop are verified against the index-consistency type invariant.",
+   note="container/heap's ordering guarantee is an assumed contract over the proved Less; the 'one unordered frame after a lazy change' is expressed by the hdirty ghost", ref="4 C06"),
+ "C10": dict(
+   text="Atomicity as a contract shape: every public bar/container operation performs at most one send on the owner's channel and touches no bar state itself (frame conditions: modifies only sent(...)), every state change happens inside a closure that runs on the owner (A-ACT), and the late arms read only the state published by closing bsOk (published). Together these give one linearisation point per operation; the step taken at that point is C09's contract.",
+   note="freedom from data races is argued from the frame conditions (static write sets per function), not from a happens-before model: the memory model itself is outside the contract language; Completed()'s late arm is covered only as far as its reads are of published state", ref="4 C10"),
+ "C12": dict(
+   text="Per-function contracts for the width exchange: syncWidth spawns one distributor per column, maxWidthDistributor answers every participant of a column with one common value that is at least each submitted width (maximum, common), WC.Format submits exactly once and receives exactly once when DSyncWidth is set and otherwise returns max(W, width + extra space) (own, exchange), bState.draw calls every decorator once; the heap manager keeps the sync flag and the column table per frame (syncflag, synced, syncframe).",
+   note="that all bars of a frame take part in the same exchange is the heap-manager contract plus the channel invariants; the assumption that the column matrix is rectangular for bars with equal decorator counts is stated in the syncWidth contract", ref="4 C12"),
+ "C13": dict(
+   text="Progress.Write performs one send and returns what the owner answered; the owner's closure calls the underlying writer once with the caller's bytes and answers with its results (once, answer); a Write that finds the container done returns (0, ErrDone) and emits nothing (late); flush writes intercepted bytes before any bar row of the same frame and each row whole (whole, flushed); serve renders once more after the loop when auto-refreshing (finalframe). One gap (manual refresh mode: accepted bytes may wait for a render the user never requests) is outside these obligations and documented.",
+   note="ordering across concurrent writers is the order of receives on one channel (A-ACT); bytes are abstract strings with exact concatenation", ref="4 C13"),
+ "C14": dict(
+   text="Exactly-once notification as postconditions: the heap manager closes itself and starts the notifier goroutine once per end request; Bar.serve starts one shutdown-listener notification per listener and counts each with the WaitGroup (once, counted); the listener collection walks every wrapped decorator (every); serve issues the end request exactly once with the configured notifier (ended).",
+   note="that cancellation is observed by every bar is a liveness/ordering statement handled by the channel-role 'closing' clauses; 'before Wait returns' relies on sync.WaitGroup's assumed contract", ref="4 C14"),
+ "C15": dict(
+   text="Error path as postconditions: a draw error closes iterDrop exactly once and flush returns it without calling Writer.Flush (errdrop, once); render returns an error without flushing when the terminal size is unavailable (noframe); serve cancels once, stops selecting on requests, reports the error exactly once to the debug writer and renders no further frame (errstop, cancelonce, reported, noframeaftererror); extenders leave no partial row on error (onerror, drained). One recorded finding: maxWidthDistributor stops answering once a participant is dropped (KNOWN_FINDINGS.txt).",
+   note="'Wait returns' is liveness and only covered as far as the closing clauses go", ref="4 C15"),
+ "C17": dict(
+   text="Queueing as postconditions of Add's closure and flush: a bar created to queue after a live predecessor is parked under it without overwriting an existing entry (nooverwrite, live), a bar created after a retired predecessor is pushed directly at the predecessor's priority (accounted), and when the predecessor's last frame is flushed its successor is pushed in its place with its priority and the predecessor is marked retired (successor, retired, slot). Two defects (successor lost when the predecessor had already finished; second successor overwrote the first) found by these obligations and repaired.",
+   note="'eventually displayed' is the per-frame step only; across frames it relies on the heap-manager conservation of C05", ref="4 C17"),
+ "C18": dict(
+   text="Pop-completed mode as per-iteration postconditions of flush: a finished, poppable bar without successor is given the pop priority and pushed once more (toppop), on its final visit it is counted into popCount and not pushed again (popped), no-pop bars are kept (kept, nopoponkeep), and Writer.Flush is told to keep rows - popCount lines so the popped rows stay above (flushed). One recorded finding: a popped bar whose rows are clipped is dropped without having been shown (KNOWN_FINDINGS.txt).",
+   note="'stays on screen unchanged' depends on the terminal model of C04", ref="4 C18"),
  "C07": dict(
    text="Row width: bState.draw is verified to return a row whose display width is at most the width it was given, from (i) the interface contract of decorators (reported width = display width; an obligation for every built-in Decor/Format, assumed for user decorators), (ii) the filler interface contract (emitted width <= available; proved for the bar, spinner and nop fillers) and (iii) the truncation branch. The bar body is proved to occupy exactly the allotted width (bFiller.Fill, sFiller.Fill, both flush closures, the three spinner position closures), every loop of the fillers has a proved variant (termination), struct invariants (non-empty tip frames, width = display width of the bytes, non-nil meta functions) are established by the builders and written only during construction.",
    note="display width is an additive abstract measure dw (assumed contracts of runewidth.StringWidth/Truncate/FillLeft/FillRight and stripansi.Strip); user meta functions preserve display width (assumption M); fillers and decorators emit no line feed; UTF-8 validity is not modelled; A-SYNC for synchronised columns (the reply on a width channel is >= the width sent; the peer is verified under C12)", ref="4 C07"),
